@@ -188,6 +188,11 @@ func vfModelCandidateRIB(a *aftpb.Afts) (*aft.RIB, error) {
 			if !vfEncapDefined(int32(e.NextHop.DecapsulateHeader)) {
 				return nil, vfModelUndefinedEnum()
 			}
+			for _, h := range e.NextHop.EncapHeader {
+				if h != nil && h.EncapHeader != nil && !vfEncapDefined(int32(h.EncapHeader.Type)) {
+					return nil, vfModelUndefinedEnum()
+				}
+			}
 		}
 	}
 	for _, e := range a.Ipv4Entry {
@@ -419,7 +424,102 @@ func vfModelCandidateRIB(a *aftpb.Afts) (*aft.RIB, error) {
 			if badLabel {
 				return nil, errors.New("pushed label out of range")
 			}
-			if n.Gre != nil || len(n.EncapHeader) != 0 || n.TunnelSrcIpAddress != nil || n.VniLabel != nil {
+			for _, hk := range n.EncapHeader {
+				if hk == nil {
+					vfModelUnsupported("nil element in a repeated field")
+					return nil, errors.New("unsupported")
+				}
+				if hk.EncapHeader == nil {
+					return nil, errors.New("nil list member")
+				}
+				if hk.Index > 0xff {
+					return nil, errors.New("encap-header index does not fit uint8")
+				}
+				h := hk.EncapHeader
+				if h.Gre != nil || h.Ipv4 != nil || h.Ipv6 != nil || h.UdpV4 != nil {
+					vfModelUnsupported("encap-header kind outside the model")
+					return nil, errors.New("unsupported")
+				}
+				ix := uint8(hk.Index)
+				if ent.EncapHeader[ix] != nil {
+					vfModelUnsupported("duplicate encap-header index")
+					return nil, errors.New("unsupported")
+				}
+				eh := &aft.Afts_NextHop_EncapHeader{Index: &ix}
+				if h.Type != 0 {
+					eh.Type = aft.E_AftTypes_EncapsulationHeaderType(h.Type)
+				}
+				if m := h.Mpls; m != nil && (len(m.MplsLabelStack) != 0 || m.TrafficClass != nil) {
+					em := &aft.Afts_NextHop_EncapHeader_Mpls{}
+					bad := false
+					for _, l := range m.MplsLabelStack {
+						if l == nil {
+							vfModelUnsupported("nil element in a repeated field")
+							return nil, errors.New("unsupported")
+						}
+						if l.MplsLabelStackOpenconfigmplstypesmplslabelenum != 0 {
+							vfModelUnsupported("enumerated label in an encap header")
+							return nil, errors.New("unsupported")
+						}
+						bad = vfOr(bad, !vfValidLabel(l.MplsLabelStackUint64))
+						em.MplsLabelStack = append(em.MplsLabelStack, aft.UnionUint32(uint32(l.MplsLabelStackUint64)))
+					}
+					if m.TrafficClass != nil {
+						bad = vfOr(bad, m.TrafficClass.Value > 7)
+						tc := uint8(m.TrafficClass.Value)
+						em.TrafficClass = &tc
+					}
+					if bad {
+						return nil, errors.New("mpls encap header out of range")
+					}
+					eh.Mpls = em
+				}
+				if u := h.UdpV6; u != nil && (u.Dscp != nil || u.DstIp != nil || u.DstUdpPort != nil || u.IpTtl != nil || u.SrcIp != nil || u.SrcUdpPort != nil) {
+					eu := &aft.Afts_NextHop_EncapHeader_UdpV6{}
+					bad := false
+					if u.Dscp != nil {
+						bad = vfOr(bad, u.Dscp.Value > 63)
+						v := uint8(u.Dscp.Value)
+						eu.Dscp = &v
+					}
+					if u.DstUdpPort != nil {
+						bad = vfOr(bad, u.DstUdpPort.Value > 0xffff)
+						v := uint16(u.DstUdpPort.Value)
+						eu.DstUdpPort = &v
+					}
+					if u.SrcUdpPort != nil {
+						bad = vfOr(bad, u.SrcUdpPort.Value > 0xffff)
+						v := uint16(u.SrcUdpPort.Value)
+						eu.SrcUdpPort = &v
+					}
+					if u.IpTtl != nil {
+						bad = vfOr(bad, u.IpTtl.Value > 0xff)
+						v := uint8(u.IpTtl.Value)
+						eu.IpTtl = &v
+					}
+					if bad {
+						return nil, errors.New("udp-v6 encap header out of range")
+					}
+					if u.SrcIp != nil {
+						if !vfValidIP(u.SrcIp.Value) {
+							return nil, errors.New("invalid udp-v6 source")
+						}
+						eu.SrcIp = vfStrp(u.SrcIp.Value)
+					}
+					if u.DstIp != nil {
+						if !vfValidIP(u.DstIp.Value) {
+							return nil, errors.New("invalid udp-v6 destination")
+						}
+						eu.DstIp = vfStrp(u.DstIp.Value)
+					}
+					eh.UdpV6 = eu
+				}
+				if ent.EncapHeader == nil {
+					ent.EncapHeader = map[uint8]*aft.Afts_NextHop_EncapHeader{}
+				}
+				ent.EncapHeader[ix] = eh
+			}
+			if n.Gre != nil || n.TunnelSrcIpAddress != nil || n.VniLabel != nil {
 				vfModelUnsupported("next-hop payload field outside the model")
 			}
 		}
@@ -598,6 +698,19 @@ func vfModelMergeStructInto(dst, src ygot.GoStruct, opts ...ygot.MergeOpt) error
 					cur.IpInIp.DstIp = vfStrp(*v.IpInIp.DstIp)
 				}
 			}
+			for ix, h := range v.EncapHeader {
+				if cur.EncapHeader == nil {
+					cur.EncapHeader = map[uint8]*aft.Afts_NextHop_EncapHeader{}
+				}
+				if cur.EncapHeader[ix] != nil {
+					// (the RIB always deletes a next-hop before merging its replacement; merging INTO an encap header
+					// of the same index never happens there and is not modelled)
+					vfModelUnsupported("merge into an existing encap header")
+					return errors.New("unsupported")
+				}
+				c, _ := ygot.DeepCopy(h)
+				cur.EncapHeader[ix] = c.(*aft.Afts_NextHop_EncapHeader)
+			}
 			origPushedMplsLabelStack := cur.PushedMplsLabelStack // elements are compared with the destination's ORIGINAL content only
 			for _, l := range v.PushedMplsLabelStack {
 				found := false
@@ -710,6 +823,44 @@ func vfModelConcreteNextHopProto(e *aft.Afts_NextHop) (*aftpb.Afts_NextHopKey, e
 		if t.DstIp != nil {
 			p.IpInIp.DstIp = &wpb.StringValue{Value: *t.DstIp}
 		}
+	}
+	for ix, h := range e.EncapHeader {
+		ph := &aftpb.Afts_NextHop_EncapHeader{Type: enums.OpenconfigAftTypesEncapsulationHeaderType(h.Type)}
+		if m := h.Mpls; m != nil && (len(m.MplsLabelStack) != 0 || m.TrafficClass != nil) {
+			ph.Mpls = &aftpb.Afts_NextHop_EncapHeader_Mpls{}
+			for _, l := range m.MplsLabelStack {
+				u, ok := l.(aft.UnionUint32)
+				if !ok {
+					return nil, errors.New("unsupported label type")
+				}
+				ph.Mpls.MplsLabelStack = append(ph.Mpls.MplsLabelStack, &aftpb.Afts_NextHop_EncapHeader_Mpls_MplsLabelStackUnion{MplsLabelStackUint64: uint64(u)})
+			}
+			if m.TrafficClass != nil {
+				ph.Mpls.TrafficClass = &wpb.UintValue{Value: uint64(*m.TrafficClass)}
+			}
+		}
+		if u := h.UdpV6; u != nil && (u.Dscp != nil || u.DstIp != nil || u.DstUdpPort != nil || u.IpTtl != nil || u.SrcIp != nil || u.SrcUdpPort != nil) {
+			ph.UdpV6 = &aftpb.Afts_NextHop_EncapHeader_UdpV6{}
+			if u.Dscp != nil {
+				ph.UdpV6.Dscp = &wpb.UintValue{Value: uint64(*u.Dscp)}
+			}
+			if u.DstUdpPort != nil {
+				ph.UdpV6.DstUdpPort = &wpb.UintValue{Value: uint64(*u.DstUdpPort)}
+			}
+			if u.SrcUdpPort != nil {
+				ph.UdpV6.SrcUdpPort = &wpb.UintValue{Value: uint64(*u.SrcUdpPort)}
+			}
+			if u.IpTtl != nil {
+				ph.UdpV6.IpTtl = &wpb.UintValue{Value: uint64(*u.IpTtl)}
+			}
+			if u.SrcIp != nil {
+				ph.UdpV6.SrcIp = &wpb.StringValue{Value: *u.SrcIp}
+			}
+			if u.DstIp != nil {
+				ph.UdpV6.DstIp = &wpb.StringValue{Value: *u.DstIp}
+			}
+		}
+		p.EncapHeader = append(p.EncapHeader, &aftpb.Afts_NextHop_EncapHeaderKey{Index: uint64(ix), EncapHeader: ph})
 	}
 	for _, l := range e.PushedMplsLabelStack {
 		u, ok := l.(aft.UnionUint32)
